@@ -55,3 +55,47 @@ int run_entry(int which, char *buf, size_t size, const char *fmt, const Args &a)
     EntryCall c{which, buf, size, fmt};
     return dispatch(c, a);
 }
+
+// ---- formats with up to 300 directives: a fixed argument pattern int, long long, char*, int (%c)
+// repeated 75 times, expanded at compile time into one ordinary variadic call.
+#include <utility>
+static const char *const S300[5] = {"", "x", "str", "hello world", "%d"};
+template <size_t I> static auto pick300()
+{
+    if constexpr (I % 4 == 0)
+        return (int)((unsigned)I * 2654435761u); // both signs occur
+    else if constexpr (I % 4 == 1)
+        return (long long)I * 0x0123456789ABLL - ((I & 4) ? 0x7fffffffffffLL : 0);
+    else if constexpr (I % 4 == 2)
+        return S300[(I / 4) % 5];
+    else
+        return (int)('a' + (I / 4) % 26);
+}
+template <size_t... I> static int impl300(Cap *cap, const char *fmt, std::index_sequence<I...>)
+{
+    return call_printf(cap, fmt, pick300<I>()...);
+}
+template <size_t... I> static int ref300(char *buf, size_t n, const char *fmt, std::index_sequence<I...>)
+{
+    return call_ref(buf, n, fmt, pick300<I>()...);
+}
+Out run_impl300(const std::string &fmt)
+{
+    static Cap cap;
+    cap.n = 0;
+    Out o;
+    o.ret = impl300(&cap, fmt.c_str(), std::make_index_sequence<300>());
+    o.emitted = cap.n;
+    o.text.assign((const char *)cap.buf, cap.n < CAPN ? cap.n : CAPN);
+    return o;
+}
+Out run_ref300(const std::string &fmt)
+{
+    static char buf[CAPN + 1];
+    Out o;
+    o.ret = ref300(buf, sizeof buf, fmt.c_str(), std::make_index_sequence<300>());
+    size_t n = o.ret < 0 ? 0 : (size_t)o.ret;
+    o.emitted = n;
+    o.text.assign(buf, n < CAPN ? n : CAPN);
+    return o;
+}
